@@ -2892,6 +2892,22 @@ impl SctpInner {
         };
 
         if let Some(dc) = dc {
+            // User data on a channel we opened in-band proves that the peer processed
+            // our DCEP OPEN (RFC 8832 §6 lets it send right away); its ACK may still be
+            // in flight or lost. Announce Open before the first message.
+            if !dc.negotiated
+                && dc
+                    .state
+                    .compare_exchange(
+                        DataChannelState::Connecting as usize,
+                        DataChannelState::Open as usize,
+                        Ordering::SeqCst,
+                        Ordering::SeqCst,
+                    )
+                    .is_ok()
+            {
+                dc.send_event(DataChannelEvent::Open);
+            }
             let b_bit = (flags & 0x02) != 0;
             let e_bit = (flags & 0x01) != 0;
             let unordered = (flags & 0x04) != 0;
